@@ -169,7 +169,7 @@ CHECKS["C09"] = {
                        "top-level-union:dynamic", "form:T.reads(memoryview)",
                        "form:cs.read(name, BytesIO)", "char-shortcut", "direct:buffered-file",
                        "direct:unbuffered-file", "direct:BytesIO",
-                       "direct:forward-only-stream"],
+                       "direct:forward-only-stream", "text-mode-stream"],
     "assumptions": ASSUME_COMMON,
 }
 
